@@ -31,7 +31,7 @@ from .algebra import run_obligation, ObFail, custom_edge, CDIM
 class World:
     """A graph with uninterpreted edges, plus the observation hooks."""
 
-    def __init__(self, it, vtypes, edges, fixed, m=2, shared=None):
+    def __init__(self, it, vtypes, edges, fixed, m=2, shared=None, int_flags=False):
         self.it, self.vtypes, self.edge_spec, self.m = it, list(vtypes), list(edges), m
         self.dims = [CDIM[t] for t in vtypes]
         self.offs = [sum(self.dims[:k]) for k in range(len(self.dims))]
@@ -43,7 +43,9 @@ class World:
             base = sym_vec("shared", self.dims[i])
             self.poses0[i] = it.construct(vtypes[i], [base])
             self.poses0[j] = it.construct(vtypes[j], [base])
-        self.verts = [it.construct("Vertex", [Poly.const(100 + 7 * k), self.poses0[k]], dict(fixed=(k in fixed))) for k in range(len(vtypes))]
+        def flag(k):
+            return (Poly.const(1 if k in fixed else 0)) if int_flags else (k in fixed)
+        self.verts = [it.construct("Vertex", [Poly.const(100 + 7 * k), self.poses0[k]], dict(fixed=flag(k))) for k in range(len(vtypes))]
         self.edges = []
         self.state_ids = it.__dict__.setdefault("_world_state_ids", {})   # (edge index, pose key) -> small integer; shared by the worlds of one path
         self.solves = []             # (H snapshot, rhs snapshot, state key at the time, state key of the last assembly)
@@ -359,11 +361,12 @@ def split_obligation(vtypes, edges, fixed, ffp, n, k1):
     return lambda pkg: run_obligation(pkg, fn, max_paths=512)
 
 
-def optimize_obligation(vtypes, edges, fixed, ffp, max_iter, verbose, second_call=False, refix=None, shared=None, twin=None):
+def optimize_obligation(vtypes, edges, fixed, ffp, max_iter, verbose, second_call=False, refix=None, shared=None, twin=None,
+                        allow_size_thresholds=False, int_flags=False):
     def fn(it):
         check_result.solves_seen = 0
         fails = Fails()
-        w = World(it, vtypes, edges, set(fixed), shared=shared)
+        w = World(it, vtypes, edges, set(fixed), shared=shared, int_flags=int_flags)
         if twin is not None:
             # a second graph over the same vertex and edge objects, listed in another order (it renumbers the vertices' gradient
             # indices); the first graph is then optimized: a vertex' block is where its gradient_index says *now*
@@ -376,7 +379,8 @@ def optimize_obligation(vtypes, edges, fixed, ffp, max_iter, verbose, second_cal
         final, st = check_result(it, w, ret, entry, tol, max_iter, "", fixed_now, fails)
         if (w.prints > 0) != bool(verbose):
             fails.add("verbose", "verbose=%r but print was called %d time(s)" % (verbose, w.prints))
-        flags = [bool(ga(v, "fixed")) for v in w.verts]
+        from .assembly import truthy
+        flags = [truthy(ga(v, "fixed")) for v in w.verts]
         if flags != [k in fixed_now for k in range(len(w.verts))]:
             fails.add("fixed", "after optimize(fix_first_pose=%r) the fixed flags are %r, expected exactly %r" % (ffp, flags, sorted(fixed_now)))
         st["scenario"] = "max_iter=%d verbose=%r ffp=%r fixed=%s" % (max_iter, verbose, ffp, sorted(fixed))
@@ -394,7 +398,32 @@ def optimize_obligation(vtypes, edges, fixed, ffp, max_iter, verbose, second_cal
         if fails:
             raise ObFail(" || ".join("[%s] %s" % km for km in fails))
         return st
-    return lambda pkg: run_obligation(pkg, fn, max_paths=512)
+    return lambda pkg: run_obligation(pkg, fn, max_paths=512, allow_size_thresholds=allow_size_thresholds)
+
+
+def directed_tasks(prefix, rule, where, size_consts, counter_consts):
+    """The code of optimize() (or of what it calls) tests a size or the iteration counter against a constant: the standard scenarios
+    are re-run with the test allowed (they are on the small side of it) and joined by scenarios aimed at the other side -- chains of
+    c-1, c and c+1 vertices, runs of c+1 iterations."""
+    out = []
+    for sc_ in SCENARIOS:
+        name, vt, ed, fx, ffp, mi, vb, sc = sc_[:8]
+        refix = sc_[8] if len(sc_) > 8 else None
+        shared = sc_[9] if len(sc_) > 9 else None
+        twin = sc_[10] if len(sc_) > 10 else None
+        out.append(("%s/optimize-semantics/%s" % (prefix, name), rule,
+                    optimize_obligation(vt, ed, fx, ffp, mi, vb, sc, refix, shared, twin, allow_size_thresholds=True), where))
+    for c in size_consts:
+        for n_ in sorted({max(c - 1, 2), c, c + 1}):
+            vt = ["PoseSE2"] + ["PoseR2"] * (n_ - 1)
+            ed = [(0, k) for k in range(1, n_)] + [(k, k + 1) for k in range(1, n_ - 1)]
+            for mi in (1, 2):
+                out.append(("%s/optimize-semantics/directed/%d-vertices(size constant %d)/iter%d" % (prefix, n_, c, mi), rule,
+                            optimize_obligation(vt, ed, (), True, mi, False, allow_size_thresholds=True), where))
+    for c in counter_consts:
+        out.append(("%s/optimize-semantics/directed/iter%d(iteration constant %d)" % (prefix, c + 2, c), rule,
+                    optimize_obligation(V3, E3, (), True, c + 2, False, allow_size_thresholds=True), where))
+    return out
 
 
 V3 = ["PoseSE2", "PoseR2", "PoseSE2"]
@@ -440,6 +469,8 @@ THOROUGH_SCENARIOS = [
     ("iter2/se3-mixed", ["PoseR3", "PoseSE3", "PoseR2", "PoseSE3"], [(1, 0), (3, 1), (2,), (0, 3)], (), True, 2, False, False),
     ("iter3/then-second-call", V3, E3, (), True, 3, True, True),
     ("iter2/landmark-listed-first-then-second-call", ["PoseR2", "PoseSE2", "PoseSE2"], [("L", (1, 0)), ("O", (1, 2)), ("L", (2, 0))], (), True, 2, False, True),
+    ("iter2/twin-graph-then-second-call", V3, E3, (1,), False, 2, False, True, None, None, (1, 2, 0)),
+    ("iter3/isolated-free-vertex", V3 + ["PoseR2"], E3, (), True, 3, False, False),
 ]
 
 
@@ -451,8 +482,15 @@ def tasks(prefix, rule, where):
         shared = sc_[9] if len(sc_) > 9 else None
         twin = sc_[10] if len(sc_) > 10 else None
         out.append(("%s/optimize-semantics/%s" % (prefix, name), rule, optimize_obligation(vt, ed, fx, ffp, mi, vb, sc, refix, shared, twin), where))
-    for n_, k1 in ((2, 1), (3, 1), (3, 2)):
+    # fixed flags given as 1 / 0 (truthy values other than the literal True), as the package's own tests do
+    out.append(("%s/optimize-semantics/iter2/fixed-middle-flag-given-as-1" % prefix, rule,
+                optimize_obligation(V3, E3, (1,), False, 2, False, int_flags=True), where))
+    splits = ((2, 1), (3, 1), (3, 2)) + (((4, 2), (4, 1), (4, 3)) if TIER == "thorough" else ())
+    for n_, k1 in splits:
         out.append(("%s/optimize-semantics/split/%d=%d+%d" % (prefix, n_, k1, n_ - k1), rule, split_obligation(V3, E3, (), True, n_, k1), where))
-    for name, fx, ffp, mi, at in (("fault/solve-fails-in-iteration-1", (), True, 2, 0), ("fault/solve-fails-in-iteration-2", (1,), False, 3, 1)):
+    faults = (("fault/solve-fails-in-iteration-1", (), True, 2, 0), ("fault/solve-fails-in-iteration-2", (1,), False, 3, 1))
+    if TIER == "thorough":
+        faults += (("fault/solve-fails-in-iteration-3", (), True, 4, 2), ("fault/solve-fails-in-iteration-1/nothing-fixed", (), False, 2, 0))
+    for name, fx, ffp, mi, at in faults:
         out.append(("%s/optimize-semantics/%s" % (prefix, name), rule, fault_obligation(V3, E3, fx, ffp, mi, at), where))
     return out
